@@ -23,7 +23,7 @@ from mc import core, explorer
 from mc.refs import bpsynth as bp
 
 NEEDS_BRIDGEPOINT = True
-BUDGET_S = {'quick': 1200, 'thorough': 4000}
+BUDGET_S = {'quick': 3600, 'thorough': 14400}
 ASSUMPTIONS = [
     'models: Simple_Model.xtuml (all rows, file order); "simple2" = the same plus a sibling component "Other" with a package, '
     'a component nested in the package "Classes" and a package reference (EP_PKGREF) from "Classes" to the package of '
